@@ -20,8 +20,9 @@ import (
 // fresh worker with a longer deadline; only a second failure is reported.
 
 type caseHead struct {
-	ID string `json:"id"`
-	Dl int    `json:"dl"` // optional per-case deadline in ms
+	ID    string `json:"id"`
+	Dl    int    `json:"dl"`    // optional per-case deadline in ms
+	Fresh bool   `json:"fresh"` // run in a worker process of its own (no state warmed up by earlier cases)
 }
 
 type wproc struct {
@@ -150,6 +151,10 @@ func poolMain(args []string) int {
 				if h.Dl > 0 {
 					dl = time.Duration(h.Dl) * time.Millisecond
 				}
+				if h.Fresh && w != nil {
+					w.kill()
+					w = nil
+				}
 				if w == nil {
 					var err error
 					if w, err = startWorker(); err != nil {
@@ -180,6 +185,10 @@ func poolMain(args []string) int {
 					w = w2
 				}
 				emit(res)
+				if h.Fresh && w != nil {
+					w.kill()
+					w = nil
+				}
 			}
 		}()
 	}
